@@ -437,3 +437,56 @@ func c02Overlap(c *core.Ctx, r *core.Reporter) {
 			"findConflict does not compare the two fields' own sub-selections with the exclusivity computed from the parent types")
 	}
 }
+
+// ruleRegistrations lists "RuleFn/kind/phase" for every visitor callback registered by a
+// function of the rule signature (phase = Kind | Enter | Leave | EnterKindMap | LeaveKindMap).
+func ruleRegistrations(c *core.Ctx) map[string]token.Pos {
+	out := map[string]token.Pos{}
+	p := c.Pkg("")
+	info := p.TypesInfo
+	c.FuncDecls(func(rel string, pp *packagesPkg, fd *ast.FuncDecl) {
+		if rel != "" {
+			return
+		}
+		ast.Inspect(fd.Body, func(n ast.Node) bool {
+			cl, ok := n.(*ast.CompositeLit)
+			if !ok {
+				return true
+			}
+			m, ok := info.TypeOf(cl).Underlying().(*types.Map)
+			if !ok {
+				return true
+			}
+			switch core.QualName(m.Elem()) {
+			case "visitor.NamedVisitFuncs":
+				for _, el := range cl.Elts {
+					kv, ok := el.(*ast.KeyValueExpr)
+					if !ok {
+						continue
+					}
+					kind := constString(info, kv.Key)
+					if v, ok := kv.Value.(*ast.CompositeLit); ok {
+						for _, e2 := range v.Elts {
+							if kv2, ok := e2.(*ast.KeyValueExpr); ok {
+								if id, ok := kv2.Key.(*ast.Ident); ok {
+									out[fd.Name.Name+"/"+kind+"/"+id.Name] = kv2.Pos()
+								}
+							}
+						}
+					}
+				}
+			case "visitor.VisitFunc":
+				for _, el := range cl.Elts {
+					if kv, ok := el.(*ast.KeyValueExpr); ok {
+						out[fd.Name.Name+"/"+constString(info, kv.Key)+"/map"] = kv.Pos()
+					}
+				}
+			}
+			return true
+		})
+	})
+	return out
+}
+
+// RuleRegistrations is exported for the table generator.
+func RuleRegistrations(c *core.Ctx) map[string]token.Pos { return ruleRegistrations(c) }
